@@ -15,7 +15,6 @@ type Config struct {
 	// Refuse names corners the caller wants kept out of judgement (open findings):
 	// when one is met the program is refused instead of decided.  Without the
 	// entry the corner is decided and recorded in Interp.Events.
-	//   shared_container_text   string form of a container that holds the same array/dict twice
 	//   computed_redefinition   a `&name = expr` statement executed again after an instance it
 	//                           created earlier received attributes, or an attribute written to an
 	//                           instance of a statement that has run more than once
@@ -24,9 +23,11 @@ type Config struct {
 }
 
 const (
-	CornerSharedText = "shared_container_text"
-	CornerCompRedef  = "computed_redefinition"
-	CornerBigSum     = "big_int_sum"
+	CornerCompRedef = "computed_redefinition"
+	CornerBigSum    = "big_int_sum"
+	// CornerStrIndex is only ever recorded (never refused): a string indexed outside its length,
+	// for which the reference prescribes an error like for arrays.
+	CornerStrIndex = "str_index_oob"
 )
 
 // ScriptError is an error the language prescribes (type error, bad index,
@@ -84,8 +85,11 @@ func (in *Interp) corner(name, why string) {
 	in.Events[name] = true
 }
 
+// onSharedText: the text of a container that holds the same array or dict twice is not
+// documented (the implementation abbreviates the second occurrence as "[...]" like a cycle;
+// writing it out in full would be the other reading): refused, never judged.
 func (in *Interp) onSharedText() {
-	in.corner(CornerSharedText, "string form of a container that holds the same array or dict twice")
+	refuse("string form of a container that holds the same array or dict twice")
 }
 
 // act is one activation: the top-level program, a function call or the
